@@ -293,10 +293,11 @@ RULE_ADD = {
     "C10": "An observer goroutine takes snapshots throughout the run: the members of a write group (known from the trace) that wrote a key must all be visible in a snapshot or none of them. The caller's Batch must be byte-identical after DB.Write returns (a foreign record merged into it would be written again with it).",
     "C06": "Histories also contain recover (settle, Close, leveldb.Recover: every table re-registered in level 0 in file-number order), chain-forming churn (2-3 puts per buffer over 5-7 adjacent keys: transitive level-0 overlaps), sizeof, and in 30% of the cases a storage that delays table removal by 300 us.",
     "C07": "sizeof steps (SizeOf over three nested ranges: non-negative, additive, bounded by the table bytes) take and release table-cache handles; 30% of the cases delay table removal by 300 us.",
-    "C12": "Reader reuse: every read is done twice, with a fresh Reader and with one that was used on another stream (opposite strictness, checksums off, left inside a spanning record) and then Reset; both must agree. Writer reuse: a Writer used on another output and then Reset must produce byte-identical output and complete the record it owed the old output; Writer.Size() equals the delivered bytes at every Flush.",
+    "C12": "A quarter of the record payloads of 64 bytes and more are well-formed journal streams themselves (a reader that loses its framing inside one yields records never written); a third of the damage specs aim at the header bytes of a record. Reader reuse: every read is done twice, with a fresh Reader and with one that was used on another stream (opposite strictness, checksums off, left inside a spanning record) and then Reset; both must agree. Writer reuse: a Writer used on another output and then Reset must produce byte-identical output and complete the record it owed the old output; Writer.Size() equals the delivered bytes at every Flush.",
     "C13": "Probes include the comparer's Separator of every adjacent stored pair and the Successor of the last key (the non-stored keys the writer puts into the index block); FindKey (filtered and not) is held to the same oracle as Find.",
-    "C14": "Up to three long-lived iterators are moved between Puts and Deletes: First/Last/Seek answer from the current contents, Prev from the key the iterator stands on, Next from its successor link (re-seek instead of Next when the pair it stands on was deleted).",
-    "C17": "Keys and namespaces are small, have the top bit set on every other one, or are scattered over all 64 bits; Gets go through Cache.Get, NamespaceGetter.Get or a lookup-only Get with a nil constructor.",
+    "C14": "Up to three long-lived iterators are moved between Puts and Deletes: First/Last/Seek answer from the current contents, Prev from the key the iterator stands on, Next from its successor link; Next from a pair that was deleted meanwhile is either replaced by a re-seek or taken and judged by what must still hold (lands after the key it stood on, inside the range, on a pair stored at some time).",
+    "C15": "DefaultComparer's Separator/Successor are also called with a non-empty dst (caller prefix): the prefix must stay and the appended part must obey the same laws.",
+    "C17": "One constructor in eleven fails (returns no value: Get returns nil). Up to three handles are taken before Close and released after it. Keys and namespaces are small, have the top bit set on every other one, or are scattered over all 64 bits; Gets go through Cache.Get, NamespaceGetter.Get or a lookup-only Get with a nil constructor.",
     "C18": "In the racing scene Close is stretched (closing the journal and manifest files takes 250 us each) so that readers meet every intermediate state of the shutdown; Has is judged like Get.",
     "C19": "A fifth of the histories end inside a transaction that has flushed tables of its own and is still open when the DB is closed (Close discards it; none of its writes may be recovered); a quarter end with an idle reopen followed by a few small writes, and a third write and reopen right after Recover. A third of the cases keep an iterator open over the last steps of the history and release it immediately before Close; 30% delay table removal by 300 us; the settled-state premise (storage listing = live files) is checked before Close.",
     "C20": "Every argument is a slice of a larger buffer whose spare capacity holds other bytes; the argument and the bytes behind it must be intact after the call (Put, Delete, Get, Has, Seek, SizeOf on DB, snapshot and transaction).",
